@@ -5,6 +5,7 @@ CONSTANTS
   ShareEntry = TRUE
   AtomicCounter = TRUE
   NRepl = 3
-SPECIFICATION Spec
+SPECIFICATION FairSpec
 INVARIANTS EntryIntact DialsOK RotationOK
+PROPERTY RefresherStops
 CHECK_DEADLOCK FALSE
